@@ -52,10 +52,13 @@ TxAlphabet ==
   \cup { FeeTx(<<WRec("A1", 1, CapH(LastOf("wrk", 1) + 1)), WRec("A1", 1, CapH(LastOf("wrk", 1) + 2))>>) }
   \cup { FeeTx(<<BRec("A1", 1), BRec("A1", 1), BRec("A2", 1)>>) }
   \cup { FeeTx(<<BBuy("A1", 1, 1), BBuy("A1", 1, 1)>>), FeeTx(<<WBuy("A1", 1, 1), WBuy("A1", 1, 2)>>) }
+  \* a storage purchase that is rolled back because a later message of the transaction fails (three messages: scripted)
+  \cup { FeeTx(<<WBuy(a, 1, 1), WRec(a, 1, CapH(LastOf("wrk", 1) + 1)), WRec(a, 1, LastOf("wrk", 1))>>) : a \in {"A1", "A2"} }
+  \cup { FeeTx(<<BBuy("A1", 1, 1), BRec("A1", 1), BRec("A2", 1)>>) }
   \* a registration and a first record that are rolled back because the last message fails (the id stays free)
   \cup { FeeTx(<<[t |-> "WReg", owner |-> a, moniker |-> "m", name |-> "n", genesis |-> "g", type |-> "t"],
                   WRec(a, st.wrk.next, 1), WRec(a, st.wrk.next, 1)>>) : a \in {"A2", "A3"} }
-  \cup { FeeTx(<<[t |-> "BReg", owner |-> "A3", moniker |-> "m", name |-> "n"], BRec("A3", st.bcn.next), BBuy("A3", st.bcn.next, 1), BRec("A2", st.bcn.next)>>) }
+  \cup { FeeTx(<<[t |-> "BReg", owner |-> "A3", moniker |-> "m", name |-> "n"], BRec("A3", st.bcn.next), BRec("A2", st.bcn.next)>>) }
   \cup { GovTxFor(st, "wrk", Presets[i]) : i \in (IF FailingGov THEN {} ELSE DOMAIN Presets) }
   \cup { GovTxFor(st, "bcn", Presets[i]) : i \in (IF FailingGov THEN {} ELSE DOMAIN Presets) }
   \cup (IF FailingGov THEN { GovTxFailingFor(st, "wrk", Presets[i]) : i \in DOMAIN Presets } ELSE {})
